@@ -242,6 +242,32 @@ func TestMapOrd(t *testing.T) {
 	w := newTraceWriter(envStr("VH_OUT", "/tmp/mapord.ndjson"))
 	n := envInt("VH_N", 100)
 	runs, leaks := 0, 0
+	// directed: the look-ahead is filled (results finished, nobody reads), then Close / a late first Next
+	for p := 1; p <= 3; p++ {
+		for extra := 0; extra <= 3; extra++ {
+			for variant := 0; variant < 2; variant++ {
+				buf := p + extra
+				s := moScen{Kind: "stream", P: p, Buf: buf, Fail: map[int]bool{}}
+				nIt := buf + 3
+				for v := 1; v <= nIt; v++ {
+					s.Steps = append(s.Steps, moStep{A: "item", V: v})
+				}
+				for v := nIt; v >= 1; v-- { // late items finish first
+					s.Steps = append(s.Steps, moStep{A: "rel", V: v})
+				}
+				if variant == 0 {
+					s.Steps = append(s.Steps, moStep{A: "close"})
+				} else {
+					s.Steps = append(s.Steps, moStep{A: "next"}, moStep{A: "next"}, moStep{A: "close"})
+				}
+				evs, leak, msg := runMapOrd(t, s)
+				if leak {
+					leaks++
+				}
+				writeRuns(w, &runs, evs, leak, msg, Ev{"kind": s.Kind, "p": s.P, "buf": s.Buf, "gmp": runtime.GOMAXPROCS(-1)})
+			}
+		}
+	}
 	for i := 0; i < n; i++ {
 		s := genMapOrd(rng, []string{"iter", "stream"}[i%2])
 		evs, leak, msg := runMapOrd(t, s)
